@@ -81,6 +81,7 @@ type FuncContract struct {
 	Ghosts     []specParam
 	GhostFuns  []ghostFun
 	Scenarios  []string
+	ThoroughOnly map[string]bool // scenarios run in the thorough tier only
 	Cases      []CaseDef
 	Modifies   []string
 	Props      []string
@@ -140,6 +141,7 @@ type Engine struct {
 	forceInline map[*ssa.Function]bool
 	inlineExternal map[string]bool
 	unrollLimit int
+	tier      string
 	dryStop   []*LoopInfo
 	requireAllocBounds bool
 	contractFiles []string
@@ -377,6 +379,15 @@ func (e *Engine) parseContractLines(p *packages.Package, file string, lines []st
 			cur.Modifies = append(cur.Modifies, strings.Fields(rest)...)
 		case "scenario":
 			cur.Scenarios = append(cur.Scenarios, strings.Fields(rest)...)
+		case "thorough_scenario":
+			// verified in the thorough tier only
+			cur.Scenarios = append(cur.Scenarios, strings.Fields(rest)...)
+			if cur.ThoroughOnly == nil {
+				cur.ThoroughOnly = map[string]bool{}
+			}
+			for _, n := range strings.Fields(rest) {
+				cur.ThoroughOnly[n] = true
+			}
 		case "ghostfun":
 			// ghostfun NAME ARGTYPE... RESTYPE
 			fs := strings.Fields(rest)
